@@ -66,6 +66,19 @@ theorem bitwriter_pack (bs : List Bool) :
 
 example : (BitWriter.empty.writeAll [true, false, true, true]).finish = [0b1101#64] := by decide
 
+/-- Any sequence of `write_bit` / `write_bits(v, count ≤ 64)` / `write_zeros(n)` calls followed by
+`finish` yields the naive packing of the concatenation of the bits each call denotes (`count`
+lowest bits of `v`, LSB first; `n` zeros), and `len()` is their number. -/
+theorem bitwriter_ops_pack (ops : List BwOp) (h : ∀ op ∈ ops, op.ok) :
+    (ops.foldl BwOp.apply BitWriter.empty).finish = pack (ops.flatMap BwOp.denote) ∧
+    (ops.foldl BwOp.apply BitWriter.empty).len = (ops.flatMap BwOp.denote).length := by
+  rw [canon_nil, foldl_apply_canon ops h]
+  rw [List.nil_append]
+  exact ⟨finish_canon _, len_canon _⟩
+
+example : ([BwOp.bit true, .zeros 62, .bits 0b111#64 3].foldl BwOp.apply BitWriter.empty).finish
+    = [0x8000000000000001#64, 0x3#64] := by decide
+
 /-! ### standard cursor: every engine = reference, for all byte strings -/
 
 /-- `build_semi_index_scalar` returns the reference index. -/
